@@ -50,6 +50,13 @@ def run(ctx):
         ok = ok_rng and bool(prods)
         if ok:
             other = prods[0][2] if prods[0][3] == theta else prods[0][3]
+            # a memoised branch cost: judge the value that was stored under the same index
+            if other[0] == 'sub' and other[1][0] == 'attr' and other[1][1] == SELF and \
+                    other[2] == i:
+                stored = [e.data[2] for q in returning(paths(repo, gc)) for e in q.events
+                          if e.kind == 'setitem' and e.data[0] == other[1] and e.data[1] == i]
+                if stored:
+                    other = max(stored, key=lambda v: len(show(v)))
             calls = [x for x in subterms(other) if x[0] == 'call' and x[1][0] == 'sub' and
                      x[1][1] == ('param', gc.params[2])]
             ok = bool(calls) and all(
@@ -65,6 +72,39 @@ def run(ctx):
                               y[2][0] == ('const', 0))
         ctx.ob('R06a', 'SuperNetCombiner.get_cost accumulates from zero', zero_start,
                'starts from 0', where(gc), nontrivial=False)
+    # R06e: no value computed for one metric may be re-used for another (memoisation keyed by
+    # the branch only is stale as soon as a second cost specification is evaluated)
+    spec_params = {('param', gc.params[1]), ('param', gc.params[2])}
+    caches = {}
+    for p in returning(paths(repo, gc)):
+        for e in p.events:
+            if e.kind == 'setitem' and e.data[0][0] == 'attr' and e.data[0][1] == SELF:
+                caches.setdefault(e.data[0][2], []).append((e.data[1], e))
+            if e.kind == 'setattr' and e.data[0] == SELF:
+                caches.setdefault(e.data[1], []).append((None, e))
+    read_back = {}
+    for p in returning(paths(repo, gc)):
+        terms = [p.retval] + [a for a, _ in p.assumptions]
+        for name in caches:
+            if any(mentions(t, lambda x, name=name: x == ('attr', SELF, name)) for t in terms):
+                read_back[name] = True
+    for name, items in sorted(caches.items()):
+        if name not in read_back:
+            continue
+        keyed = all(k is not None and mentions(k, lambda x: x in spec_params or
+                                               (is_call(x, 'builtins.id') and x[2] and
+                                                x[2][0] in spec_params)) for k, _ in items)
+        ctx.ob('R06e', f'SuperNetCombiner.get_cost memoised state {name}', keyed,
+               f'{name} is keyed by the cost specification' if keyed else
+               f'get_cost stores per-branch values in self.{name} keyed by '
+               f'{[short(k, 40) if k else "nothing" for k, _ in items][:2]} and reads them back: '
+               f'the key does not identify the cost specification / function map, so the second '
+               f'metric evaluated on the same SuperNet is charged with the first metric\'s branch '
+               f'costs', where(gc, items[0][1].node))
+    if not any(n in read_back for n in caches):
+        ctx.ob('R06e', 'SuperNetCombiner.get_cost keeps no state between metrics', True,
+               'the cost is recomputed from the function map it is given', where(gc),
+               nontrivial=False)
     for p in returning(paths(repo, fwd)):
         if any(e.kind == 'loop0' for e in p.events):
             continue
